@@ -194,6 +194,9 @@ void shutdown_quiet() {
   for (auto& d : S->dw) { delete d; d = nullptr; }
   for (auto& s : S->seq) s.reset();
   while (!S->tracers.empty()) S->tracers.pop_back();
+  // nothing of one case may leak into the next: the library's process-wide 'current tracer' is cleared as well (it is left
+  // dangling by a library that mishandles tracers destroyed out of order; the case that did that is over by now)
+  trompeloeil::set_tracer(nullptr);
   delete S;
   S = nullptr;
   g_activity = act;
@@ -407,6 +410,7 @@ void push_tracer(int kind) {
   S->tracers.push_back(std::move(t));
 }
 void pop_tracer() { drain_stream_tracers(); S->tracers.pop_back(); }
+void drop_tracer(int k) { drain_stream_tracers(); S->tracers.erase(S->tracers.begin() + k); }
 void drain_stream_tracers() {
   for (auto& t : S->tracers) {
     if (!t.st) continue;
